@@ -196,6 +196,8 @@ func implC16(line string) string {
 		return implStruct(f)
 	case "field":
 		return implField(f)
+	case "view":
+		return implView(f)
 	}
 	return "bad-op"
 }
@@ -375,5 +377,9 @@ func genC16(c *h.Ctx) {
 	}
 	for i := 0; i < c.N(3000, 80000); i++ {
 		c.Add(g.structHistory(), "hist:struct")
+	}
+	// observers of bridged containers and bridged values in argument positions of built-ins
+	for i := 0; i < c.N(4000, 60000); i++ {
+		c.Add(g.viewRequest(), "view")
 	}
 }
